@@ -111,3 +111,15 @@ Print Assumptions x86_preserves_length.
 Example x86_changes_something :
   xo (x86_code_g true 0 4294967291 0 [232; 1; 2; 3; 0; 144; 144; 144; 144; 144]) <> [232; 1; 2; 3; 0; 144; 144; 144; 144; 144].
 Proof. vm_compute. discriminate. Qed.
+
+(** x86, continued: the same from ANY filter state whose mask - brought forward to the current position - agrees with the
+    bytes ahead (what a later call of the streaming coder starts from); [eff], [WF] and [Cons] are defined in BcjProofs5.v *)
+Theorem x86_decode_encode_from_consistent_state : forall pm pp pos l,
+  bytes_ok l -> pm < 256 -> pos < 4294967296 -> pp < 4294967296 -> sub32' pos pp + lenN l < 4294967296 ->
+  WF (eff pm (sub32' pos pp)) = true -> Cons (eff pm (sub32' pos pp)) l ->
+  xo (x86_go tb false pm pp pos (xo (x86_go tb true pm pp pos l))) = l.
+Proof. exact x86_go_roundtrip_consistent. Qed.
+Print Assumptions x86_decode_encode_from_consistent_state.
+
+Example consistent_state_exists : WF (eff 1 1) = true /\ Cons (eff 1 1) [144; 144; 144; 7; 144; 144] /\ eff 1 1 <> 0.
+Proof. vm_compute. repeat split; discriminate. Qed.
